@@ -35,7 +35,7 @@ var checker = &vk.Checker[Case]{
 	ID: "C02",
 	Rule: "bitmaps drawn by style (select-hostile: exact-count 32k-1/32k/32k+1 ones, islands with runs of empty words, tail = last 1 at the very last bit, palette words, all densities) and length class; " +
 		"grid: every byte value at each byte position x 4 fills as [w] and [w,0,w] (thorough: every 16-bit pattern x 4 positions x 3 fills); every valid i in [0,n) is queried when n <= 4096 " +
-		"(else 0, n-1, all i = -1,0,1 mod 32 and sampled i) through Select32, Select32R64 and Rank64(select(i)) against the naive list of 1-positions; both indexes compared entry by entry. " +
+		"(else 0, n-1, all i = -1,0,1 mod 32 and sampled i) through Select32, Select32R64 and Rank64(select(i)) against the naive list of 1-positions; both indexes compared entry by entry, after the index builders have been called on other bitmaps (a result aliasing library-owned memory is seen). " +
 		"Non-trivial: n >= 2 (so a query with i%32 != 0 runs the in-word search and the next-1 scan). Distinct by hash of the case.",
 	Check:    check,
 	Classify: classify,
@@ -97,6 +97,19 @@ func check(c Case) *vk.Failure {
 	if f := vk.Try("IndexSelect32/IndexSelect32R64", func() {
 		sidx = bitmap.IndexSelect32(words)
 		sidx2, ridx = bitmap.IndexSelect32R64(words)
+	}); f != nil {
+		return f
+	}
+	// returned indexes must stay valid while indexes of other bitmaps are built (no shared result buffers)
+	if f := vk.Try("index builders on other bitmaps", func() {
+		inv := make([]uint64, len(orig))
+		for i, x := range orig {
+			inv[i] = ^x ^ uint64(i)*0x9e3779b97f4a7c15
+		}
+		for _, other := range [][]uint64{inv, append(append([]uint64{}, inv...), ^uint64(0), 0, 0x8000000000000001), inv[:len(inv)/2]} {
+			_ = bitmap.IndexSelect32(other)
+			_, _ = bitmap.IndexSelect32R64(other)
+		}
 	}); f != nil {
 		return f
 	}
